@@ -238,7 +238,14 @@ pub fn add_plan(rng: &mut Rng, profile: &str, tree: &Tree, inv: &mut Inv, oracle
             HardKind::OpenDir => pick_position(rng, &walk_dirs).map(|d| Rule::new("opendir", &d, 1, *rng.pick(&["EACCES", "EIO", "EMFILE"]))),
             HardKind::ReadDir => pick_position(rng, &walk_dirs).map(|d| Rule::new("readdir", &d, rng.below(4), "EIO")),
             HardKind::StdinEio => Some(Rule::new("read", "@0", format!("+{}", rng.below(inv.stdin.as_ref().map(|b| b.0.len()).unwrap_or(0) + 1)), "EIO")),
-            HardKind::StdStream => Some(Rule::new("write", *rng.pick(&["@1", "@1", "@2"]), format!("+{}", rng.below(64)), *rng.pick(&["EPIPE", "ENOSPC", "EIO", "EAGAIN"]))),
+            HardKind::StdStream => Some(if rng.chance(0.3) {
+                // a non-blocking pipe with a slow reader: a partial write, then EAGAIN for a while
+                let sel = *rng.pick(&["@1", "@1", "@2"]);
+                extra.push(Rule::new("short_write", sel, 0, *rng.pick(&[1usize, 3, 7, 16, 61, 512])));
+                Rule::new("eagain_write", sel, rng.range(1, 4), rng.range(1, 6))
+            } else {
+                Rule::new("write", *rng.pick(&["@1", "@1", "@2"]), format!("+{}", rng.below(64)), *rng.pick(&["EPIPE", "ENOSPC", "EIO"]))
+            }),
             HardKind::Crash => Some(if rng.chance(0.3) {
                 // Ctrl-C / a supervisor's TERM / a closed terminal in the middle of the run
                 Rule::new("signal", "**", rng.range(1, events_hint.max(8)), *rng.pick(&[2, 15, 1]))
